@@ -8,6 +8,16 @@ Driver commands of property C11 (core Lean only).  Command names start with "c11
   c11.bamaux <hex>                bam.parseAux            -> ok <hex,hex..|-> | err | panic
   c11.bai <hex>                   bam.ReadIndex           -> ok nil | ok <refs> <bytes WriteIndex writes> | err | panic
   c11.tbi <hex>                   tabix.ReadFrom          -> ok nil | ok <refs> <bytes WriteTo writes> | err | panic
+  c11.cramdef <hex>               cram definition.readFrom -> ok <magic> <version> <id> <bytes left> | err | panic
+  c11.cramcont <hex>              cram Container.readFrom  -> ok <blockLen> <refID> <start> <span> <nRec> <recCount> <bases>
+                                                              <blocks> <landmarks,|-> <crc32> <bytes left> | err | panic
+  c11.cramblock <hex>             cram Block.readFrom      -> ok <method> <typ> <contentID> <compressedSize> <rawSize>
+                                                              <data hex> <crc32> <bytes left> | err | panic
+  c11.cramvalue <method> <typ> <data hex> <expanded hex | e> <texthex=o|e or ->   cram Block.Value on a block
+                                  with these fields; the 4th argument is what the decompressor answers for the data,
+                                  the 5th what Header.UnmarshalText answers for the header text
+                                  -> ok header | ok slice <fields> | ok block <method> <data hex> | err | panic | oracle-miss
+  c11.cramalloc <kind> <hex>      the count handed to make: kind b = Block.readFrom, s = itf8slice -> <n> | none | panic
 
 The oracle of c11.aux is what the real strconv answered for the pieces of this text:
 `kind:hexkey=value;...` with kind a (Atoi), i8/i16/i32 (ParseInt base 0), u8/u16/u32 (ParseUint base 0),
@@ -17,6 +27,8 @@ import Hts.Drv.Util
 import Hts.Drv.C16
 import Hts.Model.Decoders
 import Hts.Model.DecodersIndex
+import Hts.Model.CramDec
+import Hts.Drv.C10
 namespace Hts.Drv.C11
 open Hts.Drv Hts.Model.Decoders Hts.Model.Coord
 
@@ -66,6 +78,24 @@ def cigarSweep (n pos : Int) (c : List CigarOp) : String :=
   | .ok v, some e, some (r, q), .ok str => s!"valid={boolStr v} end={e} lens={r},{q} str={hexOfNats (ofBytes str)}"
   | _, _, _, _ => "panic"
 
+/-! ### CRAM readers (Hts.Model.CramDec); CRC-32 is computed here (Hts.Drv.C10.crc32) -/
+
+open Hts.Model.CramDec in
+def showInts (l : List Int) : String :=
+  if l.isEmpty then "-" else ",".intercalate (l.map toString)
+
+def hx (b : Bytes) : String := hexOfNats (ofBytes b)
+
+open Hts.Model.CramDec in
+def showSliceHdr (s : SliceHdr) : String :=
+  s!"{s.refID} {s.start} {s.span} {s.nRec} {s.recCount} {s.blocks} {showInts s.blockIDs} {s.embeddedRefID} {hx s.md5} {hx s.tags}"
+
+open Hts.Model.CramDec in
+def showValue : Value → String
+  | .headerText t => s!"header {hx t}"
+  | .slice s => s!"slice {showSliceHdr s}"
+  | .block m d => s!"block {m} {hx d}"
+
 def handle (cmd : String) (args : List String) : Option String :=
   match cmd, args with
   | "c11.cigar", [h] => do
@@ -84,6 +114,43 @@ def handle (cmd : String) (args : List String) : Option String :=
     some (showOutcome (fun v => match v with | none => "nil" | some (n, len) => s!"{n} {len}") (readBAI (toBytes (← parseHex h))))
   | "c11.tbi", [h] => do
     some (showOutcome (fun v => match v with | none => "nil" | some (n, len) => s!"{n} {len}") (readTabix (toBytes (← parseHex h))))
+  | "c11.cramdef", [h] => do
+    some (showOutcome (fun (d, rest) => s!"{hx d.magic} {hx d.version} {hx d.id} {rest.length}")
+      (Hts.Model.CramDec.readDefinition (toBytes (← parseHex h))))
+  | "c11.cramcont", [h] => do
+    some (showOutcome (fun (c, rest) =>
+        s!"{c.blockLen} {c.refID} {c.start} {c.span} {c.nRec} {c.recCount} {c.bases} {c.blocks} {showInts c.landmarks} {c.crc32} {rest.length}")
+      (Hts.Model.CramDec.readContainer Hts.Drv.C10.crc32 (toBytes (← parseHex h))))
+  | "c11.cramblock", [h] => do
+    some (showOutcome (fun (b, rest) =>
+        s!"{b.method} {b.typ} {b.contentID} {b.compressedSize} {b.rawSize} {hx b.data} {b.crc32} {rest.length}")
+      (Hts.Model.CramDec.readBlock Hts.Drv.C10.crc32 (toBytes (← parseHex h))))
+  | "c11.cramvalue", [m, t, h, e, o] => do
+    let data := toBytes (← parseHex h)
+    let exp ← if e == "e" then some none else (parseHex e).map (fun x => some (toBytes x))
+    let X : Hts.Model.CramDec.Expanders := ⟨fun _ _ => exp⟩
+    let b : Hts.Model.CramDec.Block :=
+      { method := ← parseNat m, typ := ← parseNat t, contentID := 0, compressedSize := data.length,
+        rawSize := data.length, data := data, crc32 := 0 }
+    match Hts.Model.CramDec.blockValue X b with
+    | .ok (.headerText text) =>
+      match o.splitOn "=" with
+      | [th, v] => if th == hx text then some (if v == "o" then "ok header" else "err") else some "oracle-miss"
+      | _ => some "oracle-miss"
+    | r => some (showOutcome showValue r)
+  | "c11.cramalloc", [k, h] => do
+    let s := toBytes (← parseHex h)
+    if k == "b" then
+      match Hts.Model.CramDec.blockHeader s with
+      | .ok (_, hd) => some (toString hd.compressedSize)
+      | .err => some "none"
+      | .panic _ => some "panic"
+    else
+      match Hts.Model.CramDec.sliceCount { src := s } with
+      | .ok (_, some n) => some (toString n)
+      | .ok (_, none) => some "none"
+      | .err => some "none"
+      | .panic _ => some "panic"
   | _, _ => none
 
 end Hts.Drv.C11
